@@ -1211,3 +1211,124 @@ def c20(ctx):
     if len(ctx.violations) > 5:
         ctx.violations.sort(key=lambda v: not v[2]); ctx.violations = ctx.violations[:5]
     return finish(ctx, 'proof', ob, dis, details, rule)
+
+
+# ---------------------------------------------------------------- C19: Condense and flows
+
+def condense_run(ctx, n):
+    """two passes: the model computes each generated collection's flows; the harness then condenses, binds directly with
+    those flows, embeds the condensed provider in an outer chain and compares"""
+    import subprocess
+    out2 = os.path.join(ctx.dir, 'condense-%d.txt' % n)
+    mod2 = os.path.join(ctx.dir, 'condense-model-%d.txt' % n)
+    if not (os.path.exists(out2) and os.path.exists(mod2)):
+        hb, log = vcheck.build_harness(ctx)
+        if hb is None:
+            ctx.violations.append(('harness does not build against /repo', write_replay(ctx, 'harness_build.txt', log[-6000:]), False))
+            return None, None
+        ok, log = vcheck.lean_build(('njmodel',))
+        if not ok:
+            ctx.violations.append(('model driver does not build', write_replay(ctx, 'lean_build_failed.txt', log[-6000:]), False))
+            return None, None
+        base = [hb, 'condense', '-seed', str(ctx.seed), '-n', str(n)]
+        p1 = subprocess.run(base, stdout=subprocess.PIPE, stderr=subprocess.PIPE, text=True, timeout=3600)
+        if p1.returncode != 0:
+            ctx.violations.append(('harness crashed (condense, pass 1)', write_replay(ctx, 'harness_crash.txt', p1.stderr[-6000:]), False))
+            return None, None
+        m1 = subprocess.run([vcheck.model_bin()], input=p1.stdout, stdout=subprocess.PIPE, stderr=subprocess.PIPE, text=True, timeout=3600)
+        flows = os.path.join(ctx.dir, 'condense-flows-%d.txt' % n)
+        open(flows, 'w').write(m1.stdout)
+        p2 = subprocess.run(base + ['-flows', flows], stdout=subprocess.PIPE, stderr=subprocess.PIPE, text=True, timeout=3600,
+                            env=dict(os.environ, GOMEMLIMIT='8GiB'))
+        if p2.returncode != 0:
+            ctx.violations.append(('harness crashed (condense, pass 2, exit %d)' % p2.returncode,
+                                   write_replay(ctx, 'harness_crash.txt', p2.stdout[-2000:] + p2.stderr[-6000:]), False))
+            return None, None
+        open(out2, 'w').write(p2.stdout)
+        open(mod2, 'w').write(m1.stdout)
+    cases = collections.OrderedDict(); cur = None
+    for l in open(out2).read().split('\n'):
+        if l.startswith('case '):
+            cur = int(l.split()[1]); cases[cur] = []
+        if cur is not None and l:
+            cases[cur].append(l)
+    model = {}
+    for l in open(mod2).read().split('\n'):
+        t = l.split()
+        if len(t) >= 3 and t[0] == 'mflows':
+            model[int(t[1])] = dict(x.split('=', 1) for x in t[2:] if '=' in x) if t[2] != 'none' else None
+    return cases, model
+
+
+@prop('C19')
+def c19(ctx):
+    rule = ('generated collections (wrappers, fallible injectors, Cacheable/Memoize, interface inputs with Loose providers, unresolved inputs) '
+            'are (a) condensed with a random error treatment and the condensed provider\'s inputs/outputs compared with the model '
+            '(characterizeAll + netFlows / netReturns); (b) bound directly to func(inputs) outputs using the MODEL\'s flows: Condense must '
+            'succeed exactly when that direct bind does; (c) embedded (input supplier, condensed provider, final consumer) in an outer '
+            'chain and invoked: full trace of the members and every delivered value compared with the direct invocation, a non-nil error '
+            'either delivered as a value or, when terminal, stopping the outer chain before its final function; distinct = provider lists')
+    ob, dis, details = proof_obligations(ctx, 'C19')
+    n = 1500 if ctx.tier == 'quick' else 20000
+    cases, model = condense_run(ctx, n)
+    st = collections.Counter(); distinct = set()
+    for k, ls in (cases or {}).items():
+        text = '\n'.join(ls) + '\n# replay: harness condense -seed %d -n %d (two passes, see tools/props.py condense_run), case %d\n' % (ctx.seed, n, k)
+        rec = {x.split()[0]: x for x in ls if x.split()[0] in ('condense', 'directspec', 'direct', 'embedded', 'cpair')}
+        if 'condense' not in rec:
+            continue
+        c = rec['condense'].split(); cv = c[3].split('=', 1)[1]
+        ckv = dict(x.split('=', 1) for x in c[2:] if '=' in x)
+        dv = rec['directspec'].split()[2].split('=', 1)[1] if 'directspec' in rec else 'skip'
+        mf = model.get(k)
+        st['condense-' + cv.split(':')[-1]] += 1
+        key = tuple(x.split(' name=')[0] for x in ls if x.startswith('p '))
+        if cv.startswith(('panic', 'hang')):
+            ctx.violations.append(('Condense %s (case %d)' % (cv[:120], k), write_replay(ctx, 'condense_%d.txt' % k, text), True)); continue
+        # (a) flows against the model
+        if mf is None:
+            if cv != 'err:E_CLASSIFY':
+                st['verdict-DIFFER'] += 1
+                ctx.violations.append(('model: a member matches no registry entry; Condense says %s (case %d)' % (cv, k), write_replay(ctx, 'condense_%d.txt' % k, text), True))
+            else:
+                st['verdict-agree'] += 1
+            continue
+        if cv == 'ok':
+            iout = sorted(ckv['out'].replace('21', '20').split(',')); mout = sorted(mf['out'].split(','))
+            if ckv['in'] != mf['in'] or iout != mout:
+                st['flows-DIFFER'] += 1
+                ctx.violations.append(('condensed provider asks for %s and returns %s; the model says %s / %s (case %d)' % (ckv['in'], ckv['out'], mf['in'], mf['out'], k),
+                                       write_replay(ctx, 'condense_%d.txt' % k, text), True))
+            else:
+                st['flows-agree'] += 1
+        # (b) Condense succeeds exactly when the collection binds directly with the model's flows
+        if dv != 'skip':
+            if (cv == 'ok') != (dv == 'ok'):
+                st['verdict-DIFFER'] += 1
+                what = ('the collection binds directly to func(%s) (%s) but Condense fails with %s' % (mf['in'], mf['true'], cv)) if dv == 'ok' else \
+                       ('Condense succeeds but the collection does not bind directly with its reported flows (%s)' % dv)
+                ctx.violations.append((what + ' (case %d)' % k, write_replay(ctx, 'condense_%d.txt' % k, text), True))
+            else:
+                st['verdict-agree'] += 1
+        # (c) embedded equals direct
+        if 'cpair' in rec:
+            t = rec['cpair'].split()
+            st['pair-' + t[2]] += 1
+            if t[2] == 'diff':
+                ctx.violations.append(('embedded condensed provider differs from direct invocation: %s (case %d)' % (' '.join(t[3:])[:200], k),
+                                       write_replay(ctx, 'condense_%d.txt' % k, text), True))
+            elif t[2] == 'same':
+                distinct.add(key)
+                if len(ctx.samples) < 3 and len(ls) > 6:
+                    ctx.samples.append({'case': k, 'records': [x for x in ls if not x.startswith('cflows')][:14], 'model': mf})
+    ctx.cov['evaluations'] = sum(v for k_, v in st.items() if k_.startswith(('pair-', 'verdict-', 'flows-')))
+    ctx.cov['programs'] = len(cases or {})
+    ctx.cov['distinct_nontrivial'] = len(distinct)
+    ctx.cov['traces_validated_against_impl'] = st['pair-same']
+    ctx.cov['outcomes'] = dict(st)
+    ctx.assumptions += ['*Debugging parameters inside the condensed collection (bypassDebug plumbing) are not generated; covered by the repository test only',
+                        'the public Collection.UpFlows()/DownFlows() on an unbound collection cannot know which member is final; the flows checked are the ones Condense binds with',
+                        'interface-typed received (upward) parameters are not generated']
+    if len(ctx.violations) > 5:
+        ctx.violations.sort(key=lambda v: not v[2]); ctx.violations = ctx.violations[:5]
+    return finish(ctx, 'proof', ob, dis, details, rule)
